@@ -187,6 +187,8 @@ func checkC18(c *vlib.Ctx) (string, string) {
 		{"acrm-length", byteLadder}, {"acrm-length:lower", byteLadder}, {"acrm-length:upper", byteLadder},
 		{"acrh-element-length", byteLadder}, {"acrh-element-length:upper", byteLadder},
 		{"acrh-elements", countLadder}, {"acrh-elements:X-A", countLadder}, {"acrh-elements:x-zz", countLadder}, {"acrh-elements: x-a ", countLadder},
+		{"acrh-elements:x-a;q=1", countLadder}, {"acrh-elements:(x)", countLadder}, {"acrh-elements:x\x00", countLadder}, {"acrh-elements:\"x-a\"", countLadder}, {"acrh-elements:é", countLadder},
+		{"acrh-lines:x-a;q=1", countLadder}, {"acrh-lines:x@y, (z)", countLadder}, {"acrh-lines:\x00", countLadder},
 		{"acrh-elements:x-a|x-b", countLadder}, {"acrh-elements:x-a|X-B|x-zz", countLadder}, {"acrh-elements:Authorization", countLadder},
 		{"acrh-empty-elements", countLadder},
 		{"acrh-lines", countLadder}, {"acrh-lines:X-A", countLadder}, {"acrh-lines:x-zz", countLadder}, {"acrh-lines:empty", countLadder}, {"acrh-lines:x-a,x-b", countLadder},
